@@ -118,11 +118,55 @@ def _sat_conj(lits):
             order.append(k)
         return k
 
+    def node_rec(t):
+        if t.key in terms:
+            return
+        node(t)
+        if t.base is not None:
+            node_rec(t.base)
+        for st in getattr(t, 'sub', ()):
+            node_rec(st)
+
     for l in lits:
         for t in lit_terms(l):
-            node(t)
-            if t.base is not None:
-                node(t.base)
+            node_rec(t)
+    # congruence closure over the syntactic equalities: f(x) == f(y) when x == y
+    congr = []
+    if any(getattr(terms[k], 'sub', ()) for k in order):
+        uf = {}
+
+        def find(a):
+            while uf.get(a, a) != a:
+                uf[a] = uf.get(uf[a], uf[a])
+                a = uf[a]
+            return a
+
+        def union(a, b):
+            ra, rb = find(a), find(b)
+            if ra != rb:
+                uf[ra] = rb
+                return True
+            return False
+        for l in lits:
+            if l[0] == 'eq':
+                union(l[1].key, l[2].key)
+        changed = True
+        while changed:
+            changed = False
+            sig = {}
+            for k in order:
+                t = terms[k]
+                sub = getattr(t, 'sub', ())
+                if not sub or t.shape is None:
+                    continue
+                sg = (t.shape, tuple(find(x.key) for x in sub))
+                if sg in sig:
+                    if union(sig[sg], k):
+                        congr.append((terms[sig[sg]], t))
+                        changed = True
+                else:
+                    sig[sg] = k
+    lits = lits + [('eq', a, b) for a, b in congr]
     # axiom: truthiness of a sized object vs its len() term
     extra = []
     for l in lits:
